@@ -44,6 +44,22 @@ def opSweep (op : String) (a : List String) (st : DrvState) : Option (DrvState Ã
     let i â† st.getEnv id
     let n := i.env.dbis.foldl (fun acc d => acc + d.kvs.length) 0
     pure (st, s!"ok {i.env.dbis.length} {n} {fnv64 (envOut i.env)}")
+  | "sweep.wall", [_native, rd, ages] => do
+    -- the sweeper's own cut-off: now - retention; an entry written `m` minutes ago carries the
+    -- timestamp now - m minutes (any `now` beyond the largest age gives the same answer)
+    let rd â† natArg rd
+    let toks := splitOn ages ','
+    let now := 4000000000000000000
+    let cutoff := now - rd
+    let kept â† (toks.zipIdx).filterMapM fun (t, j) => do
+      let mins â† natArg ((t.dropEnd 1).toString)
+      let del := t.endsWith "D"
+      let ts := now - mins * 60000000000
+      let v : Bytes := be64 ts ++ be64 1 ++ [0, if del then 1 else 0, 0, 0, 0, 0, 0, 0] ++ (if del then [] else [0x76])
+      match Sweeper.expired cutoff v with
+      | .ok true => pure none
+      | _ => pure (some (toString j))
+    pure (st, "ok kept=" ++ ",".intercalate kept)
   | "sweep.pass", [id, cutoff, n, batches] => do
     let i â† st.getEnv id
     let bs â† (splitOn batches '/').mapM fun b => (listArg b ',').mapM parseAppOp
